@@ -354,6 +354,18 @@ def install(w):
         v = ex.w.ufun("attr___fields", ex.S.Py, ex.S.Py)(ex.to_py(args[0]))
         return Z(ex.P.titems(v))
 
+    @b("items_of")
+    def _items_of(ex, args, kw, e, env):
+        """The elements of a Python list or tuple VALUE as a list ([] for anything else)."""
+        P, S = ex.P, ex.S
+        x = ex.to_py(args[0])
+        return Z(z3.If(P.is_PList(x), P.items(x), z3.If(P.is_PTuple(x), P.titems(x), S.nil)))
+
+    @b("walk")
+    def _walk(ex, args, kw, e, env):
+        """walk(n): the list ast.walk(n) yields (uninterpreted, see the model of ast.walk)."""
+        return Z(ex.w.ufun("ast_walk", ex.S.Py, ex.S.PyList)(ex.to_py(args[0])))
+
     @b("wf_exprs")
     def _wf_exprs(ex, args, kw, e, env):
         return Z(ex.w.wf.list_fn("expr")(ex.to_list(args[0])))
@@ -857,6 +869,16 @@ def const_str(v):
 
 def quant_builtin(ex, args, e, env, is_any):
     a = args[0]
+    if isinstance(a, (ast.GeneratorExp, ast.ListComp)) and len(a.generators) == 2:
+        g1, g2 = a.generators
+        used = {n.id for n in ast.walk(a.elt) if isinstance(n, ast.Name)} | \
+            {n.id for c in g2.ifs for n in ast.walk(c) if isinstance(n, ast.Name)}
+        if isinstance(g1.target, ast.Name) and isinstance(g2.iter, ast.Name) and \
+                g2.iter.id == g1.target.id and not g1.ifs and g1.target.id not in used:
+            # ... for X in S for a in X  ==  ... for a in flat(S)
+            flat = ast.Call(ast.Name("flat", ast.Load()), [g1.iter], [])
+            a = ast.fix_missing_locations(ast.copy_location(
+                type(a)(a.elt, [ast.comprehension(g2.target, flat, g2.ifs, 0)]), a))
     if isinstance(a, (ast.GeneratorExp, ast.ListComp)):
         g = a.generators[0]
         seq = ex.ev(g.iter, env)
